@@ -342,7 +342,9 @@ func (e *Exec) streamRun(fr *Frame, st *BState, x *ssa.Call) SV {
 			if mc != nil {
 				binds = closures[mc]
 			}
+			e.oldStack = append(e.oldStack, post)
 			vals, o := e.runInline(fr, f, s, []SV{pctx, ev}, binds)
+			e.oldStack = e.oldStack[:len(e.oldStack)-1]
 			errv, out = vals[0], o
 		} else {
 			// unknown callback value passed through (e.g. the node's own metaSend): ghost output
